@@ -858,11 +858,13 @@ class ComposerBinary(ComposerBase):
 
                 if item_size == 3:
                     if self.byte_order in [ByteOrder.BIG_ENDIAN, ByteOrder.NETWORK]:
-                        composed_bytes += packed_bytes[1:]
+                        dropped_byte, packed_bytes = packed_bytes[:1], packed_bytes[1:]
                     else:
-                        composed_bytes += packed_bytes[:3]
-                else:
-                    composed_bytes += packed_bytes
+                        dropped_byte, packed_bytes = packed_bytes[3:], packed_bytes[:3]
+                    if dropped_byte != b'\x00':
+                        raise InvalidValue(value, int)
+
+                composed_bytes += packed_bytes
             except struct.error as e:
                 six.raise_from(InvalidValue(value, int), e)
 
